@@ -201,6 +201,19 @@ def evaluate(sched, logs, probe):
         for a, o in zip(reqs, answers):
             if a[2] == "upload" and o == "ok:upload_edb":
                 ups.append(a[3])
+    # (b) for EVERY connection of the schedule, not only the final probe: the state its init echo reports is >= every state
+    # whose transition had been acknowledged before it was opened (a connection opened while another one is still open or
+    # being cleaned up is a fresh connection too)
+    acks = sorted((t, 1 if o == "ok:config" else 2) for lg in logs.values() for (t, o) in lg if o in ("ok:config", "ok:upload_edb"))
+    for j, lg in logs.items():
+        inits = [(t, o) for (t, o) in lg if o.startswith("init:")]
+        if not inits or j not in open_at:
+            continue
+        told = int(inits[0][1].split(":")[1])
+        before = max([st for (t, st) in acks if t < open_at[j]], default=0)
+        if told < before:
+            out.append(("(b) the durable state moved backwards",
+                        f"state {before} had been acknowledged before connection {j} was opened (step {open_at[j]}), its init echo reports {told}"))
     pst = int(probe[0].split(":")[1]) if probe and probe[0].startswith("init:") else -1
     if pst < acked_state:
         out.append(("(b) the durable state moved backwards", f"acknowledged state {acked_state}, a fresh probe is told {pst}"))
